@@ -1120,11 +1120,17 @@ where
         remote: NodeId,
         result: Result<fetch::FetchResult, FetchError>,
     ) {
+        // Nb. A fetch result can arrive after the peer it was started with has disconnected
+        // and reconnected. By then, the repository may be fetched from another peer, and that
+        // fetch must not be completed by this result.
+        if self.fetching.get(&rid).is_some_and(|f| f.from != remote) {
+            error!(target: "service", "Received stale fetch result for {rid}, from {remote}");
+            return;
+        }
         let Some(fetching) = self.fetching.remove(&rid) else {
             error!(target: "service", "Received unexpected fetch result for {rid}, from {remote}");
             return;
         };
-        debug_assert_eq!(fetching.from, remote);
 
         if let Some(s) = self.sessions.get_mut(&remote) {
             // Mark this RID as fetched for this session.
